@@ -183,6 +183,79 @@ theorem c10_relay_chain (parseOk : Addr → Bool) (n : Nat) (l : Listeners)
     simp only [relayChain, handOver, h]
     exact ih
 
+theorem map_snd_zip_take {α β : Type} (as : List α) (bs : List β) (h : as.length ≤ bs.length) :
+    (as.zip (bs.take as.length)).map (·.2) = bs.take as.length := by
+  induction as generalizing bs with
+  | nil => simp
+  | cons a as ih =>
+    cases bs with
+    | nil => simp at h
+    | cons b bs => simp at h ⊢; exact ih bs h
+
+theorem map_fst_zip_take {α β : Type} (as : List α) (bs : List β) (h : as.length ≤ bs.length) :
+    (as.zip (bs.take as.length)).map (·.1) = as := by
+  induction as generalizing bs with
+  | nil => simp
+  | cons a as ih =>
+    cases bs with
+    | nil => simp at h
+    | cons b bs => simp at h ⊢; exact ih bs h
+
+theorem pair_fds (m : Manifest) (fds : List Fd) (h : m.total ≤ fds.length) :
+    (pair m fds).fds = fds.take m.total ∧ (pair m fds).manifest = m := by
+  simp only [Manifest.total] at h
+  have h1 : m.http.length ≤ fds.length := by omega
+  have h2 : m.tls.length ≤ (fds.drop m.http.length).length := by simp; omega
+  have h3 : m.tcp.length ≤ (fds.drop (m.http.length + m.tls.length)).length := by simp; omega
+  have h4 : m.udp.length ≤ (fds.drop (m.http.length + m.tls.length + m.tcp.length)).length := by simp; omega
+  constructor
+  · simp only [pair, Listeners.fds, map_snd_zip_take _ _ h1, map_snd_zip_take _ _ h2,
+      map_snd_zip_take _ _ h3, map_snd_zip_take _ _ h4, Manifest.total, List.drop_zero]
+    rw [List.take_add, List.take_add, List.take_add]
+  · simp only [pair, Listeners.manifest, List.drop_zero, map_fst_zip_take _ _ h1, map_fst_zip_take _ _ h2,
+      map_fst_zip_take _ _ h3, map_fst_zip_take _ _ h4]
+
+theorem c10_recv_pairs_within_fds (parseOk : Addr → Bool) (s s' : Sock) (l : Listeners)
+    (h : recv parseOk s = (s', .recvOk l)) :
+    l.count ≤ Consts.scmMaxFdsOut ∧ l.count ≤ s.fds.length ∧
+    l.fds = (s.fds.take Consts.scmMaxFdsOut).take l.count ∧ (∀ a ∈ l.addrs, parseOk a = true) := by
+  unfold recv at h
+  split at h
+  · cases h
+  · split at h
+    · cases h
+    · simp only at h
+      split at h
+      · cases h
+      · split at h
+        · cases h
+        · cases h
+        · next m hm =>
+          split at h
+          · cases h
+          · next hc =>
+            split at h
+            · next hall =>
+              cases h
+              have hc' : m.total ≤ (List.take Consts.scmMaxFdsOut s.fds).length ∧ m.total ≤ Consts.scmMaxFdsOut := by omega
+              obtain ⟨hf, hman⟩ := pair_fds m _ hc'.1
+              have hcount : (pair m (List.take Consts.scmMaxFdsOut s.fds)).count = m.total := by
+                have := congrArg Manifest.total hman
+                simp only [Manifest.total, Listeners.manifest, List.length_map] at this
+                simp only [Listeners.count]; exact this
+              refine ⟨by omega, ?_, by rw [hcount]; exact hf, ?_⟩
+              · rw [hcount]
+                have hh : (List.take Consts.scmMaxFdsOut s.fds).length ≤ s.fds.length := by
+                  simp [List.length_take]; omega
+                have := hc'.1; omega
+              · intro a ha
+                have e : (pair m (List.take Consts.scmMaxFdsOut s.fds)).addrs
+                    = (pair m (List.take Consts.scmMaxFdsOut s.fds)).manifest.addrs := by
+                  simp [Listeners.addrs, Manifest.addrs, Listeners.manifest]
+                have : a ∈ m.addrs := by rw [e, hman] at ha; exact ha
+                exact List.all_eq_true.mp hall a this
+            · cases h
+
 /-! ### soft stop -/
 namespace SoftStop
 
